@@ -444,10 +444,13 @@ func genPipeProgram(r *rand.Rand, nops int) *Program {
 				depth--
 				p.Ops = append(p.Ops, Op{Op: "cleanup", H: -1})
 			}
-		case x < 90:
+		case x < 89:
 			if depth == 0 || r.Intn(6) == 0 {
 				p.Ops = append(p.Ops, Op{Op: "flush"})
 			}
+		case x < 90:
+			// iteration is not supported by the pipelined buffer: the union store must report the error
+			p.Ops = append(p.Ops, Op{Op: "iter"})
 		case x < 95:
 			p.Ops = append(p.Ops, Op{Op: "fdone"})
 		default:
